@@ -122,4 +122,44 @@ theorem rndPos_nearest (f : Fmt) (hp : 1 ≤ f.p) {a b m : Nat} {e : Int} (ha : 
       _ = adiff (a * pd e') (m' * b * pn e') * pd e * pd e0 := by grind
   exact Nat.le_of_mul_le_mul_right this (pd_pos _)
 
+
+/-! ### the bridge between `rnd` and its unsigned kernel `rndPos` -/
+
+/-- `rnd` is `rndPos` on `|x|` with the sign put back: `rnd f x = some y` iff `x = 0 ∧ y = 0`, or `x ≠ 0` and `y` is the
+value `ofME (x < 0) m e` (`= ± m·2^e`, see `ofME_spec`) of the pair returned by `rndPos f |x.num| x.den` -/
+theorem rnd_eq_some_iff (f : Fmt) (x y : Q) :
+    rnd f x = some y ↔
+      (x.num = 0 ∧ y = ⟨0, 1⟩) ∨
+      (x.num ≠ 0 ∧ ∃ m e, rndPos f x.num.natAbs x.den = some (m, e) ∧ y = ofME (decide (x.num < 0)) m e) := by
+  by_cases h0 : x.num = 0
+  · rw [rnd_of_num_eq_zero f h0]
+    constructor
+    · intro h; left; exact ⟨h0, by simpa using h.symm⟩
+    · rintro (⟨_, rfl⟩ | ⟨hne, _⟩)
+      · rfl
+      · exact absurd h0 hne
+  · constructor
+    · intro h; right; exact ⟨h0, rnd_eq_some f h0 h⟩
+    · rintro (⟨hz, _⟩ | ⟨_, m, e, hr, rfl⟩)
+      · exact absurd hz h0
+      · rw [rnd_of_num_ne_zero f h0, hr]; rfl
+
+/-- **`rnd` rounds to nearest**: for `x ≠ 0`, `rnd f x = some y` means `y = ± m·2^e` (sign of `x`, lowest terms,
+`|y|·2^-e = m`) for a pair `(m, e)` of the format such that `|x|` is at least as close to `m·2^e` as to every other number
+`m'·2^e'` of the format -/
+theorem rnd_nearest (f : Fmt) (hp : 1 ≤ f.p) {x y : Q} (hd : 0 < x.den) (h0 : x.num ≠ 0) (h : rnd f x = some y) :
+    ∃ m e, y = ofME (decide (x.num < 0)) m e ∧
+      y.Canon ∧ y.num.natAbs * pd e = m * pn e * y.den ∧ (y.num < 0 ↔ (x.num < 0 ∧ 0 < m)) ∧
+      m < 2 ^ f.p ∧ f.emin ≤ e ∧ e + ((f.p : Int) - 1) ≤ f.emax ∧ (2 ^ (f.p - 1) ≤ m ∨ e = f.emin) ∧
+      ∀ (m' : Nat) (e' : Int), m' < 2 ^ f.p → f.emin ≤ e' →
+        adiff (x.num.natAbs * pd e) (m * x.den * pn e) * pd e' ≤
+          adiff (x.num.natAbs * pd e') (m' * x.den * pn e') * pd e := by
+  obtain ⟨m, e, hr, rfl⟩ := rnd_eq_some f h0 h
+  obtain ⟨hc, hv, hs, _⟩ := ofME_spec (decide (x.num < 0)) m e
+  obtain ⟨hm, he, hmax, hn, _, _⟩ := rndPos_spec f hp (by omega) hd hr
+  refine ⟨m, e, rfl, hc, hv, ?_, hm, he, hmax, hn, ?_⟩
+  · rw [hs]; simp
+  · intro m' e' hm' he'
+    exact rndPos_nearest f hp (by omega) hd hr m' e' hm' he'
+
 end Morlock.Model.Flt
